@@ -68,8 +68,26 @@ def names_for(rel):
     raise ValueError(rel)
 
 
+FAR_CFG = """SPECIFICATION MCSpec
+CONSTANTS
+  Enforce = %(enforce)s
+  Deviations = {}
+  Es <- MCEsFar
+  Ds = {0, 2592, 5000000}
+  Js = {0, 86400}
+  Rels = {"equal", "missing_one"}
+  Files = {"both"}
+  Unit = 1
+  Slack = 1
+INVARIANTS NoBad Emit
+CHECK_DEADLOCK FALSE
+"""
+
+
 def run_state(args):
     idx, st, root = args
+    scale = st.get("scale", 1)      # the far grid is in kiloseconds: seconds there exceed TLC's 32-bit integers
+    st = dict(st, e=int(st["e"]) * scale, d=int(st["d"]) * scale, j=int(st["j"]) * scale)
     vc = vcrypto.shared()
     d = os.path.join(root, "g%05d" % idx)
     shutil.rmtree(d, ignore_errors=True)
@@ -93,14 +111,19 @@ def run_state(args):
     conf = os.path.join(d, "acmed.toml")
     open(conf, "w").write(toml_dumps(cfg))
     r = probe("schedule", {"config": conf, "samples": SAMPLES})
+    if r.get("crashed") and r.get("panic"):
+        # a panic in the code under test is an outcome, not a tool error: reported as a waiting time of -1
+        shutil.rmtree(d, ignore_errors=True)
+        return idx, {"e": int(st["e"]) // scale, "d": int(st["d"]) // scale, "j": int(st["j"]) // scale, "rel": st["rel"], "files": st["files"],
+                     "samples": [-1], "panic": r["panic"][:300]}, None
     if not r.get("ok"):
         return idx, None, "probe: %s" % r
     res = r["results"].get("sched_ecdsa-p256")
     if res is None or not all(x.get("ok") for x in res):
         return idx, None, "schedule_renewal returned an error: %s" % str(res)[:300]
     shutil.rmtree(d, ignore_errors=True)
-    return idx, {"e": int(st["e"]), "d": int(st["d"]), "j": int(st["j"]), "rel": st["rel"], "files": st["files"],
-                 "samples": [min(int(x["s"]), 2 * 10 ** 9) for x in res]}, None
+    return idx, {"e": int(st["e"]) // scale, "d": int(st["d"]) // scale, "j": int(st["j"]) // scale, "rel": st["rel"], "files": st["files"],
+                 "samples": [min(int(x["s"]) // scale, 2 * 10 ** 9) for x in res]}, None
 
 
 def run(ctx):
@@ -139,6 +162,33 @@ def run(ctx):
         idx, ev = lines[ln - 1]
         rp = save_replay("C06", "grid%05d" % idx, {"state.json": run_grid[idx], "observed.json": ev, "violated.json": labs})
         ctx.verdict.violation("grid state %s: %s, waiting times %s..." % (run_grid[idx], labs, ev["samples"][:6]), rp)
+    # far past / far future: notAfter up to the year 9999 and back to 1925, in kiloseconds (Unit = 1, Slack = 1 ks)
+    rf = tlc.model_check("Schedule", FAR_CFG % p, "C06_mc_far", workers=4, timeout=600, required_actions=["MCEval"])
+    if rf["violated"]:
+        raise ToolError("Schedule (far grid): the documented formula violates the guards: %s (%s)" % (rf["violated"], rf["out_path"]))
+    seenf, far = set(), []
+    for b in tlc.replays(rf["raw"]):
+        k = json.dumps(b, sort_keys=True)
+        if k not in seenf:
+            seenf.add(k)
+            far.append(dict(b, scale=1000))
+    flines = []
+    with cf.ThreadPoolExecutor(max_workers=12) as ex:
+        for idx, ev, err in ex.map(run_state, [(i, g, os.path.join(root, "far")) for i, g in enumerate(far)]):
+            if err:
+                raise ToolError("schedule probe failed for far grid state %s: %s" % (far[idx], err))
+            flines.append((idx, ev))
+    fpath = os.path.join(root, "far.ndjson")
+    with open(fpath, "w") as f:
+        for _, e in flines:
+            f.write(json.dumps({k: v for k, v in e.items() if k != "panic"}) + "\n")
+    ftv = tlc.validate_trace("Trace_Schedule", TRACE_CFG % (tlc.tla_set(LABELS), 1, 1), "C06_ftv", fpath, timeout=600)
+    if ftv["hard_errors"] or ftv["unmatched"] is not None:
+        raise ToolError("TLC failed on the far schedule trace: %s %s (%s)" % (ftv["hard_errors"][:2], ftv["unmatched"], ftv["out_path"]))
+    for ln, labs in ftv["bad"][:20]:
+        idx, ev = flines[ln - 1]
+        rp = save_replay("C06", "far%05d" % idx, {"state.json": far[idx], "observed.json": ev, "violated.json": labs})
+        ctx.verdict.violation("far grid state (kiloseconds) %s: %s, waiting times %s... %s" % (far[idx], labs, ev["samples"][:4], ev.get("panic", "")), rp)
     # daemon level: after a successful issuance the next evaluation must not be immediate
     specs = []
     for life, delay in ((90 * 86400, "30d"), (7 * 86400, "1d"), (3600, "10m"), (86400, "2d")):
@@ -160,7 +210,7 @@ def run(ctx):
         rp = save_replay("C06", "daemon%d" % ln, {"observed.json": dl[ln - 1], "violated.json": labs})
         ctx.verdict.violation("after an issuance the daemon scheduled %s for lifetime/delay %s/%s: %s" % (dl[ln - 1]["samples"], dl[ln - 1]["e"], dl[ln - 1]["d"], labs), rp)
     cov = {"states": r["distinct"], "transitions": r["generated"], "traces_validated_against_impl": len(lines) + len(dl),
-           "samples": [lines[0][1], lines[len(lines) // 2][1], lines[-1][1]], "grid_states_in_model": len(grid), "grid_states_replayed": len(lines),
+           "samples": [lines[0][1], lines[len(lines) // 2][1], lines[-1][1]], "grid_states_in_model": len(grid), "grid_states_replayed": len(lines), "far_grid_states_replayed": len(flines),
            "evaluations_per_state": SAMPLES, "daemon_evaluations_after_issuance": len(dl), "unit_s": UNIT, "slack_s": SLACK,
            "exhaustive": ctx.tier == "thorough",
            "rule": "TLC enumerates notAfter-now x renew_delay x random_early_renew x SAN relation x file presence; for each grid state a real certificate "
